@@ -39,6 +39,9 @@ type C19Case struct {
 	JSONLog    bool     `json:"json_log"`
 	// ProxyPlain: --proxy is given without userinfo; the upstream's password then comes from --credentials (second entry).
 	ProxyPlain bool `json:"proxy_plain,omitempty"`
+	// KeyForm: how inline key material is written: the documented data: forms, and other spellings of the scheme
+	// (the binary may refuse those; what it accepts it must redact).
+	KeyForm string `json:"key_form,omitempty"`
 	// Extra: further successful exchanges of other shapes (their log lines are inside the property).
 	Extra []string `json:"extra,omitempty"`
 	// Fails: exchanges that fail at the upstream hop, made after the diagnostics of the successful phase were collected;
@@ -88,6 +91,9 @@ func genC19(t *rapid.T) C19Case {
 		if rapid.IntRange(0, 3).Draw(t, "key"+k) == 0 {
 			c.KeyFlags = append(c.KeyFlags, k)
 		}
+	}
+	if len(c.KeyFlags) > 0 {
+		c.KeyForm = rapid.SampledFrom([]string{"data:", "data:", "data:base64,", "data://", "DATA:", "Data:", "dAtA:base64,"}).Draw(t, "keyform")
 	}
 	if c.ProxyPass == "" && len(c.CredPasses) >= 2 {
 		c.ProxyPlain = rapid.Bool().Draw(t, "proxyplain")
@@ -286,21 +292,27 @@ func runC19(c C19Case) (fails []vstat.Failure) {
 	if len(creds) > 0 {
 		add("credentials", strings.Join(creds, ","))
 	}
+	dataURI := func(b []byte) string {
+		if c.KeyForm == "" {
+			return DataURI(b)
+		}
+		return c.KeyForm + strings.TrimPrefix(DataURI(b), "data:")
+	}
 	for _, k := range c.KeyFlags {
 		leaf := e.ca.Leaf([]string{"127.0.0.1", "localhost"}, time.Now().Add(-time.Hour), time.Now().Add(24*time.Hour))
 		certPEM, keyPEM := pemOf(leaf)
 		switch k {
 		case "tls":
 			add("protocol", "https")
-			add("tls-cert-file", DataURI(certPEM))
-			add("tls-key-file", DataURI(keyPEM))
+			add("tls-cert-file", dataURI(certPEM))
+			add("tls-key-file", dataURI(keyPEM))
 			secrets = append(secrets, secretSpec{"tls-key-file", "", string(keyPEM), true})
 		case "mitm":
-			add("mitm-cacert-file", DataURI(e.ca.CertPEM))
-			add("mitm-cakey-file", DataURI(e.ca.KeyPEM))
+			add("mitm-cacert-file", dataURI(e.ca.CertPEM))
+			add("mitm-cakey-file", dataURI(e.ca.KeyPEM))
 			secrets = append(secrets, secretSpec{"mitm-cakey-file", "", string(e.ca.KeyPEM), true})
 		case "cacert":
-			add("cacert-file", DataURI(e.ca.CertPEM))
+			add("cacert-file", dataURI(e.ca.CertPEM))
 		}
 	}
 	httpsListener, mitmOn := false, false
@@ -665,6 +677,9 @@ func classifyC19(c C19Case) (bool, string, []string) {
 	}
 	for _, k := range c.Extra {
 		cls = append(cls, "extra-"+k)
+	}
+	if c.KeyForm != "" {
+		cls = append(cls, "key-form-"+c.KeyForm)
 	}
 	return special || n >= 2, fmt.Sprintf("%+v", c), cls
 }
